@@ -454,8 +454,17 @@ func c02GenRel(r *lib.Rng, shape string, kindSwap, reserved bool) (*lib.Build, *
 		}
 	case 2:
 		if nw.Get("link0") != nil {
-			nw.Put(lib.Entry{Path: "link0", Kind: "link", Dest: "somewhere/else"})
-			rel = append(rel, "link-retarget")
+			dest, how := "somewhere/else", ""
+			if r.Bool() { // another text for (nearly) the same destination
+				dest, how = c02NearDest(r, paths[0], "a", "link0b")
+				how = ":near:" + how
+				if dest == "link0b" { // a second link to the same file, in both builds
+					old.Put(lib.Entry{Path: "link0b", Kind: "link", Dest: paths[0]})
+					nw.Put(lib.Entry{Path: "link0b", Kind: "link", Dest: paths[0]})
+				}
+			}
+			nw.Put(lib.Entry{Path: "link0", Kind: "link", Dest: dest})
+			rel = append(rel, "link-retarget"+how)
 		}
 	}
 	if kindSwap {
@@ -761,6 +770,17 @@ func c02Corpus() []c02Fixed {
 		{"names/rename-dest-at-tempname", []lib.Entry{fE("a", X), fE("b", Y), fE("q", Z)}, []lib.Entry{fE("b", X), fE("c", Y), fE("b.butler-rename-1", Z)}},
 		{"names/old-rename-source-at-tempname", []lib.Entry{fE("a", X), fE("b", Y), fE("b.butler-rename-1", Z)}, []lib.Entry{fE("b", X), fE("c", Y), fE("q", Z)}},
 		{"names/swap+new-links-at-tempnames", []lib.Entry{fE("a", X), fE("b", Y)}, []lib.Entry{fE("a", Y), fE("b", X), lE("a.butler-rename-1", "a"), lE("a.butler-rename-2", "a"), lE("b.butler-rename-1", "b"), dE("b.butler-rename-2")}},
+		// a symlink of both builds whose destination changes as TEXT only (or nearly so): through ".." over another
+		// symlink (a different file is meant), "./", a trailing slash, a doubled slash, the case of a letter, a longer
+		// name, another link to the same file; and the way back to the plain text
+		{"links/retarget-dotdot-through-link", []lib.Entry{fE("lib", X), fE("data/lib", Y), fE("data/deep/x", Z), lE("cur", "data/deep"), lE("link", "lib")},
+			[]lib.Entry{fE("lib", X), fE("data/lib", Y), fE("data/deep/x", Z), lE("cur", "data/deep"), lE("link", "cur/../lib")}},
+		{"links/retarget-dot-slash+trailing-slash", []lib.Entry{fE("lib", X), fE("d/f", Y), lE("l1", "lib"), lE("l2", "d"), lE("m/l3", "../d/f")},
+			[]lib.Entry{fE("lib", X+"!"), fE("d/f", Y), lE("l1", "./lib"), lE("l2", "d/"), lE("m/l3", "..//d/f")}},
+		{"links/retarget-to-plain-text", []lib.Entry{fE("lib", X), fE("d/f", Y), lE("l1", "d/../lib"), lE("l2", "d/."), lE("l3", "./nowhere")},
+			[]lib.Entry{fE("lib", X), fE("d/f", Y), lE("l1", "lib"), lE("l2", "d"), lE("l3", "nowhere")}},
+		{"links/retarget-case+prefix+alias", []lib.Entry{fE("lib", X), fE("k", Y), lE("alias", "lib"), lE("l1", "lib"), lE("l2", "lib"), lE("l3", "lib"), lE("l4", "k")},
+			[]lib.Entry{fE("lib", X), fE("k", Y+"."), lE("alias", "lib"), lE("l1", "Lib"), lE("l2", "lib.1"), lE("l3", "alias"), lE("l4", "j")}},
 		// regression shapes
 		{"shape/swap", []lib.Entry{fE("a", X), fE("b", Y)}, []lib.Entry{fE("a", Y), fE("b", X)}},
 		{"shape/chain", []lib.Entry{fE("a", X), fE("b", Y), fE("c", Z)}, []lib.Entry{fE("b", X), fE("c", Y)}},
@@ -1316,6 +1336,12 @@ func runC02Case(c *Ctx, idx int, sp c02Spec) (out []*lib.Case, err error) {
 			nonNoop++
 		}
 	}
+	for _, e := range sp.nw.Entries {
+		// a symlink of both builds with another destination is commit work too (remove + link again)
+		if o := sp.old.Get(e.Path); e.Kind == "link" && o != nil && o.Kind == "link" && o.Dest != e.Dest {
+			nonNoop++
+		}
+	}
 	cs.Nontrivial = nonNoop+len(lists.Overlays)+len(lists.Moves) > 0
 	if untouched != "" {
 		oracle = append(oracle, "the old build was modified before Commit: "+untouched)
@@ -1564,6 +1590,22 @@ func runC02(c *Ctx) error {
 			cls += "/opt"
 		}
 		if err := add(c02Spec{class: cls, old: old, nw: nw, rel: rel, optimize: opt, corr: false}); err != nil {
+			return err
+		}
+		idx++
+	}
+	// symlinks kept / added / removed / retargeted, mostly to another text for (nearly) the same destination
+	// (model correspondence: the model compares destinations as interned strings, like the code)
+	n = c.N(32, 500)
+	for i := 0; i < n; i++ {
+		cr := r.Fork()
+		old, nw, rel := c02GenLinks(cr)
+		cls := "links"
+		opt := i%4 == 3
+		if opt {
+			cls += "/opt"
+		}
+		if err := add(c02Spec{class: cls, old: old, nw: nw, rel: rel, optimize: opt, corr: true}); err != nil {
 			return err
 		}
 		idx++
